@@ -282,7 +282,17 @@ class C12(Check):
                 return fastavro.schemaless_reader(fo, schema, copy.deepcopy(strip_markers(case["schema"])))
             return f
 
+        def sl_read_as_reader(datum):
+            def f(schema):
+                fo = io.BytesIO()
+                fastavro.schemaless_writer(fo, copy.deepcopy(strip_markers(case["schema"])), datum)
+                fo.seek(0)
+                # the form under test is the READER schema; the writer schema is the raw one
+                return fastavro.schemaless_reader(fo, copy.deepcopy(strip_markers(case["schema"])), schema)
+            return f
+
         for i, datum in enumerate(data):
+            ops.append((f"schemaless_reader(raw writer, form as reader)#{i}", sl_read_as_reader(datum)))
             ops.append((f"schemaless_writer#{i}", sl_write(datum)))
             ops.append((f"schemaless_reader#{i}", sl_read(datum)))
             ops.append((f"schemaless_reader+reader_schema#{i}", sl_read_rr(datum)))
